@@ -135,13 +135,13 @@ def apply_edit(draw, model):
             o["rels"].remove(r)
         else:
             n = len(r["children"])
-            r["max"] = min(r["max"], n)
-            r["min"] = min(r["min"], r["max"])
+            r["max"] = r["max"] if r["max"] == -1 else min(r["max"], n)
+            r["min"] = min(r["min"], n if r["max"] == -1 else r["max"])
     elif kind == "card":
         r, o = draw(st.sampled_from(rels))
         n = len(r["children"])
-        alts = [(a, b) for a in range(0, n + 1) for b in range(a, n + 1) if (a, b) != (r["min"], r["max"])
-                and (a == r["min"] or b == r["max"])]
+        alts = [(a, b) for a in range(0, n + 1) for b in list(range(a, n + 1)) + [-1] if (a, b) != (r["min"], r["max"])
+                and (a == r["min"] or b == r["max"])]      # -1 = unbounded: [1..*] and [1..n] are different relations
         r["min"], r["max"] = draw(st.sampled_from(alts))
     elif kind == "move":
         cands = [(r, o, c) for r, o in rels for c in r["children"]]
@@ -160,15 +160,15 @@ def apply_edit(draw, model):
             o["rels"].remove(r)
         else:
             n = len(r["children"])
-            r["max"] = min(r["max"], n)
-            r["min"] = min(r["min"], r["max"])
+            r["max"] = r["max"] if r["max"] == -1 else min(r["max"], n)
+            r["min"] = min(r["min"], n if r["max"] == -1 else r["max"])
         t["rels"].append(build.rel(1, 1, [c]))
     elif kind == "split":
         r, o = draw(st.sampled_from([(r, o) for r, o in rels if len(r["children"]) >= 2]))
         first = r["children"].pop(0)
         n = len(r["children"])
-        r["max"] = min(r["max"], n)
-        r["min"] = min(r["min"], r["max"])
+        r["max"] = r["max"] if r["max"] == -1 else min(r["max"], n)
+        r["min"] = min(r["min"], n if r["max"] == -1 else r["max"])
         o["rels"].append(build.rel(0, 1, [first]))
     elif kind == "merge":
         o = draw(st.sampled_from([o for o in feats if len(o["rels"]) >= 2]))
@@ -197,9 +197,15 @@ def apply_edit(draw, model):
     return kind, m
 
 
+ANY_STAR = S.Profile(S.ident_or_dict_names(), single=("mandatory", "optional", "card1", "star1"),
+                     group=("alternative", "or", "mutex", "card", "star"), layout="free",
+                     ftypes=("BOOLEAN", "BOOLEAN", "INTEGER", "REAL", "STRING"), fcards=True, ctc_max=5,
+                     ctc_expr=c03._any_ctc)
+
+
 @st.composite
 def cases(draw, max_feats):
-    m = draw(S.model_specs(c03.ANY, 1, max_feats))
+    m = draw(S.model_specs(ANY_STAR, 1, max_feats))
     if draw(st.integers(0, 3)) == 0:
         # two groups with the same owner and cardinality (the ordering of relations matters for equality)
         owner = draw(st.sampled_from(_feats(m)))
